@@ -184,6 +184,39 @@ Proof.
 Qed.
 Print Assumptions C10_device_goroutines_never_panic_refuted.
 
+(* ------------------------------------------------------------------ discovery: probe() *)
+(* probe() (internal/driver/discover.go) is the other consumer of the client in the driver; it
+   runs in autoDiscover's ipWorker goroutines, which nothing recovers.  [probe_after fl se config
+   caps] (Client/DeviceHostile.v) is what probe does once Connect has returned: se = did Connect
+   end with ErrClientClosed (the exchange goroutine shut the client down / closed it) or with
+   another error; config / caps = None if the SendFor failed (ErrorMessage, failure status,
+   cut short, wrong type, beyond the buffering limit, no answer — whatever the host did),
+   Some b if a reply was received (b: it carries the parameter probe wants).  Flags: replies
+   shared as values (tree as found) or handed over as possibly-nil pointers, each pointer
+   tested or not.  For EVERY way the session and the two exchanges can end: no panic, provided
+   the replies are values or both pointers are tested; and a device is only ever discovered from
+   an Identification that was really received. *)
+Theorem C10_probe_never_panics :
+  forall (fl : pflags) (se : session_end) (config caps : option bool),
+  by_pointer fl = false \/ (config_nil_checked fl = true /\ caps_nil_checked fl = true) ->
+  probe_after fl se config caps <> PoPanic /\
+  (forall k, probe_after fl se config caps = PoInfo k -> se = SeClosedByUs /\ config = Some true).
+Proof.
+  intros fl se config caps H. split; [exact (probe_never_panics fl se config caps H)|].
+  intros k Hk. exact (probe_info_needs_config fl se config caps k Hk).
+Qed.
+Print Assumptions C10_probe_never_panics.
+
+(* FALSE when the replies are handed over as pointers and only the capabilities pointer is
+   tested: GetReaderConfig fails (for any reason), the session still ends in an orderly close
+   -> nil dereference in the ipWorker goroutine; the tree as found answers the same session
+   with an error. *)
+Theorem C10_probe_never_panics_refuted :
+  exists fl se config caps,
+  probe_after fl se config caps = PoPanic /\ probe_after pflags_as_found se config caps = PoErr.
+Proof. exists (mkPFlags true false true), SeClosedByUs, None, None. exact wit_probe_panics. Qed.
+Print Assumptions C10_probe_never_panics_refuted.
+
 (* non-vacuity: a complete well-behaved session (first message, GetSupportedVersion and
    SetProtocolVersion replies, one SendMessage with its reply) ends with the EOF error and
    delivers the reply's 3 bytes; the repaired variants turn the three witnesses into errors *)
@@ -216,3 +249,11 @@ Example C10_example_device :
   hd MUndecodable (ds_published r)
   = MReport [mkTag (Some 2001) (Some 8) (Some 2002) (Some 9); mkTag (Some 1) None (Some 2) None].
 Proof. vm_compute. repeat split; reflexivity. Qed.
+
+(* non-vacuity for probe: a proper reader is discovered with known vendor/model; one whose
+   capabilities exchange failed is discovered with "unknown" vendor/model *)
+Example C10_example_probe :
+  probe_after pflags_as_found SeClosedByUs (Some true) (Some true) = PoInfo true /\
+  probe_after pflags_as_found SeClosedByUs (Some true) None = PoInfo false /\
+  probe_after (mkPFlags true true true) SeClosedByUs None None = PoErr.
+Proof. repeat split; reflexivity. Qed.
